@@ -5,6 +5,8 @@ cd "$(dirname "$0")"
 export CARGO_NET_OFFLINE=true
 mkdir -p evidence replays target
 ./check --build-all
+# the CLI binary C18 drives (guard off); ./check C18 rebuilds it from the current tree, this only warms the cache
+env -u RUSTFLAGS cargo build --offline --manifest-path "${VERIF_REPO:-/repo}/Cargo.toml" -p varpulis-cli --bin varpulis --target-dir target/cli >/dev/null 2>&1 || true
 # Miri lanes of C14 (separate target dirs because the two lanes use different RUSTFLAGS)
 ( cd harness-miri && cp -f /repo/Cargo.lock . 2>/dev/null || true
   CARGO_TARGET_DIR=../target/miri-scalar MIRIFLAGS="-Zmiri-disable-isolation" cargo +nightly miri run --offline --quiet -- 1 1
